@@ -326,7 +326,7 @@ Definition gst (st : sstate) : bool := match st with SLatent | SLogout => true |
 Lemma gst_logged_on st : is_logged_on st = true -> gst st = true.
 Proof. destruct st; cbn; intros H; try discriminate; try reflexivity; exact H. Qed.
 
-Lemma send_resend_request_next s b e s1 st : send_resend_request s b e = (s1, st) -> exists c en, st = SResend None c en.
+Lemma send_resend_request_next s b e s1 st : send_resend_request s b e = (s1, st) -> exists c en, st = SResend (Some []) c en.
 Proof.
   unfold send_resend_request. intros E.
   match type of E with context [if ?x then _ else _] => destruct x end; inversion E; eauto.
